@@ -136,6 +136,14 @@ chk(
     "DESIGN.md 4 C11",
 )
 
+chk(
+    "C05",
+    "round trip parse -> write -> parse -> write over seeded Hypothesis grammar derivations x BibtexFormat settings and recogniser-accepted frame enumerations; content equality, byte fixpoint, and a constructive prediction of the first parse",
+    "Exploration: random derivations of the dialect grammar with unique keys (all block kinds, nested braces, quoted values, concatenations, numbers, multi-line values, free text between blocks) and reference-dense documents (resolved, unresolved and later-defined @string references) x random formats (indent [ \\t]{0,8}, value_column 0..40 and 'auto', trailing comma, whitespace-only separators incl. the empty one and CRLF), plus every recogniser-accepted text of <= 4/5 frame tokens in four frames x 6 fixed formats: the content of the first parse must equal the content predicted from the derivation alone (so that a symmetric corruption cannot cancel out), the re-parsed written text must have the same blocks with the same types, keys, field order, values and comment/preamble/string text and no failed block, and writing it again must reproduce the first output byte for byte.",
+    "Trusted: pbt/bibgen.py ground truth, strip1 (lexical one-layer strip) and the C11 resolution rule for the prediction. Separators with non-blank characters are C06's subject.",
+    "DESIGN.md 4 C05",
+)
+
 ALL = ["C%02d" % i for i in range(1, 21)]
 NOT_YET = "check not built yet in this revision of /verif (see DESIGN.md section 4 for its design); not claimed"
 
